@@ -143,9 +143,9 @@ class H:
             while True:
                 time.sleep(1.0)
                 now = h.main.elapsed_time()
-                stuck = [r for r in list(h.recs.values())
+                stuck = [r for r in h.all_recs()
                          if r['c0'] is not None and r['c1'] is None and now - r['c0'] > limit]
-                stuck += [r for r in list(h.recs.values())
+                stuck += [r for r in h.all_recs()
                           if r.get('moving') and now - r['moving'] > limit]
                 if not stuck or h.watch.max_oversleep > 2.0:
                     continue
@@ -318,6 +318,17 @@ class H:
         self.do_sched(clock, how, val, plan, kind,
                       ('task', prec['tid'], k, logical, prec['cname']))
 
+    def all_recs(self):
+        """Snapshot of the records; tasks on clock threads may add records
+        (children) while the harness thread looks at them."""
+        for _ in range(50):
+            try:
+                return list(self.recs.values())
+            except RuntimeError:
+                time.sleep(0)
+        with self.main._main_lock:
+            return list(self.recs.values())
+
     def wakes(self):
         return [e for e in self.log.events if e[1] == 'wake']
 
@@ -345,7 +356,7 @@ def analyze(h, acc, late_bound, end_phys, cancelled=None, starved=False,
     # instance table: one per (tid, k)
     inst = []      # dicts
     viol = acc.violation
-    for tid, rec in h.recs.items():
+    for tid, rec in [(r_['tid'], r_) for r_ in h.all_recs()]:
         ck = rec['ckind']
         evs = by_tid.get(tid, [])
         if rec['error']:
@@ -793,7 +804,7 @@ def run_stress(spec, acc):
     deadline = time.time() + LATE_STRESS + 2.5
     while time.time() < deadline:
         time.sleep(0.25)
-        pend = sum(1 for r in h.recs.values()
+        pend = sum(1 for r in h.all_recs()
                    if not r['decoy'] and not r['error']
                    and r['nwakes'] < expected_wakes(r['plan']))
         if pend == 0:
@@ -827,7 +838,7 @@ def run_stress(spec, acc):
 
 
 def _account(h, inst, acc, inj=None):
-    for rec in h.recs.values():
+    for rec in h.all_recs():
         if rec['decoy']:
             continue
         plan = rec['plan']
@@ -849,7 +860,7 @@ def _account(h, inst, acc, inj=None):
             acc.counters.get('max_distinct_lines_hit', 0), len(inj.hits))
     acc.maxi('max_host_oversleep_s', h.watch.max_oversleep)
     if acc.want_sample():
-        some = [r for r in h.recs.values() if not r['decoy']][:3]
+        some = [r for r in h.all_recs() if not r['decoy']][:3]
         acc.sample({'tasks': [_rec_repr(r) for r in some],
                     'first_wakes': [list(map(str, e)) for e in h.wakes()[:4]]})
 
@@ -1038,13 +1049,13 @@ def park_case(h, inj, ck, who, code, line, racing, state, acc, tempo_n, nth=1):
                 t1 = time.time()
                 while time.time() - t1 < 0.3 and not any(
                         r['src'][0] == 'task' and r['c1'] is not None
-                        for r in list(h.recs.values())):
+                        for r in h.all_recs()):
                     time.sleep(0.001)
             is_open = not park.release.is_set() and any(
                 r['src'][0] == ('task' if racing == 'from-task' else 'thread')
                 and r['src'][1] != 'kick' and r['c1'] is not None and not r['decoy']
                 and r['src'][1] != 'main'
-                for r in list(h.recs.values())) or racing == 'tempo-up'
+                for r in h.all_recs()) or racing == 'tempo-up'
         park.release.set()
         rt.join(5)
     else:
@@ -1064,11 +1075,11 @@ def park_case(h, inj, ck, who, code, line, racing, state, acc, tempo_n, nth=1):
     t0 = time.time()
     while time.time() - t0 < LATE_PARK:
         if all(r['decoy'] or r['error'] or r['nwakes'] >= expected_wakes(r['plan'])
-               for r in list(h.recs.values())):
+               for r in h.all_recs()):
             break
         time.sleep(0.002)
     waited = time.time() - t0
-    missing = [r for r in h.recs.values() if not r['decoy'] and not r['error']
+    missing = [r for r in h.all_recs() if not r['decoy'] and not r['error']
                and r['nwakes'] < expected_wakes(r['plan'])]
     starved = h.watch.max_oversleep > 0.5 or h.watch.max_step > 0.05
     kicked = None
